@@ -166,7 +166,7 @@ func cmdCheck(args []string) {
 	defer os.RemoveAll(dir)
 	var frs []*FuncResult
 	for _, n := range names {
-		frs = append(frs, p.verifyFunc(n))
+		frs = append(frs, p.verifyFuncViews(n)...)
 	}
 	filter := func(o *Obl) bool { return hasProp(o.Props, *prop) }
 	dischargeAll(frs, dir, timeout, runtime.NumCPU(), filter)
